@@ -131,6 +131,8 @@ type Script struct {
 	AckDelay   time.Duration
 	// AliasFromZero: upstream aliases are numbered 0,1,2.. per incarnation (default: 11,12.. / 21,22..)
 	AliasFromZero bool
+	// ReuseUpAlias: an upstream alias freed by a close is handed out again (the lowest free one from 1)
+	ReuseUpAlias bool
 }
 
 type FaultKind int
@@ -398,6 +400,13 @@ func (b *Broker) serve(c *BConn) {
 }
 
 func (b *Broker) nextAlias(c *BConn) uint32 {
+	if b.S.ReuseUpAlias {
+		for a := uint32(1); ; a++ {
+			if _, used := c.upAlias[a]; !used {
+				return a
+			}
+		}
+	}
 	c.nextUpAlias++
 	if b.S.AliasFromZero {
 		return c.nextUpAlias - 1
